@@ -222,6 +222,56 @@ pub const STACKS_C13: &[&str] = &[
 ];
 pub const STACKS_C12: &[&str] = &["summarize", "repeat_failed_summarize", "repeat_skipped_summarize", "summarize_normalize", "fos_summarize"];
 
+/// C12 on a real-runner history: `Summarize<Normalize<Rec>>` (the shipped default shape) as the
+/// writer of the whole pipeline, driven by a simulated run of `runner::Basic`.
+pub fn run_real_runner_c12(plan: &Rc<Plan>) -> Result<CHistory, String> {
+    let core = SimCore::new(plan.sched.clone());
+    core::install_hooks(&core);
+    let sh = Rc::new(Shared {
+        core: Rc::clone(&core),
+        rec: RefCell::new(Recorder::new(&core)),
+        call: Cell::new(0),
+        slow_pm: plan.writer.slow_pm,
+        rng: RefCell::new(Rng::new(plan.writer.sink_seed ^ 0x5151)),
+        slow_pendings: Cell::new(0),
+    });
+    let (a, la) = Rec::new(&sh, [0; 6]);
+    let w = writer::Normalize::new(a).summarized();
+    let rr = crate::runb::run_filter_run(&core, plan, w, cli::Empty)?;
+    core::uninstall_hooks();
+    let mut ch = CHistory { input: rr.raw.clone(), stack: "real_runner_summarize_normalize".to_owned(), ..CHistory::default() };
+    ch.end = Some(rr.end);
+    ch.escaped_panic = rr.panic_msg.clone();
+    let mut numbers: BTreeMap<String, i64> = BTreeMap::new();
+    if let Some(w) = &rr.writer {
+        let (sc, st) = (*w.scenarios_stats(), *w.steps_stats());
+        for (k, v) in [
+            ("sc_passed", sc.passed), ("sc_skipped", sc.skipped), ("sc_failed", sc.failed), ("sc_retried", sc.retried),
+            ("st_passed", st.passed), ("st_skipped", st.skipped), ("st_failed", st.failed), ("st_retried", st.retried),
+            ("passed", w.passed_steps()), ("skipped", w.skipped_steps()), ("failed", w.failed_steps()), ("retried", w.retried_steps()),
+            ("parsing_errors", w.parsing_errors()), ("hook_errors", w.hook_errors()), ("has_failed", usize::from(w.execution_has_failed())),
+        ] {
+            numbers.insert(k.to_owned(), v as i64);
+        }
+    }
+    ch.numbers = numbers;
+    {
+        let l = la.borrow();
+        ch.outputs.insert("out".to_owned(), l.events.clone());
+        ch.writes.insert("out".to_owned(), l.writes.clone());
+    }
+    ch.shape.events = ch.input.len();
+    ch.shape.attempts = ch.input.iter().filter(|e| matches!(e.k, K::ScStarted)).count();
+    ch.shape.failed_attempts = ch.input.iter().filter(|e| matches!(e.k, K::StepFailed { .. })).count();
+    ch.shape.skipped_attempts = ch.input.iter().filter(|e| matches!(e.k, K::StepSkipped { .. })).count();
+    ch.shape.hook_failures = ch.input.iter().filter(|e| matches!(e.k, K::HookFailed(..))).count();
+    ch.shape.parse_errors = ch.input.iter().filter(|e| matches!(e.k, K::ParseError(_))).count();
+    ch.stats = rr.stats;
+    ch.sched_digest = rr.sched_digest;
+    ch.slow_pendings = sh.slow_pendings.get();
+    Ok(ch)
+}
+
 /// Executes one writer-world run: `which` selects the writer stack under test.
 pub fn run_world_c(plan: &Rc<Plan>, which: &str) -> Result<CHistory, String> {
     let core = SimCore::new(plan.sched.clone());
